@@ -79,10 +79,13 @@ def _make(cls, model, tag, n):
 def _run(case, model):
     classes = list(BASES)
     parents = {0: None, 1: 0, 2: 1}
+    # a class factory may hand the SAME body dict object to type() for every class it creates (also for the classes created
+    # mid-history): the classes are separate classes all the same
+    body = {"__doc__": "made by a factory"} if case.get("one_body") else None
     for i, spec in enumerate(case["classes"][:7]):
         spec = int(spec)
         b = spec % len(classes) if spec >= 0 else (len(classes) - 1 if len(classes) > 3 else 0)
-        classes.append(type(f"K{i}", (classes[b],), {}))
+        classes.append(type(f"K{i}", (classes[b],), body if body is not None else {}))
         parents[len(classes) - 1] = b
     nfresh = len(classes) - 3
     if nfresh == 0:
@@ -198,7 +201,7 @@ def _run(case, model):
         elif kind == "subclass":
             if len(classes) >= 12:
                 continue
-            classes.append(type(f"L{len(classes)}", (cls,), {}))       # a class defined AFTER its ancestors were modified
+            classes.append(type(f"L{len(classes)}", (cls,), body if body is not None else {}))       # a class defined AFTER its ancestors were modified
             ni = len(classes) - 1
             parents[ni] = ci
             comps[ni] = {}
@@ -261,6 +264,6 @@ def strategy(tier):
     )
     return st.fixed_dictionaries({
         "classes": st.lists(wone_of(st.just(-1), st.just(-1), st.integers(0, 9)), min_size=2, max_size=7),
-        "shared": st.integers(0, 3).map(lambda v: v == 0),
+        "shared": st.integers(0, 3).map(lambda v: v == 0), "one_body": st.sampled_from([False, False, True]),
         "ops": wone_of(st.lists(ops, min_size=1, max_size=40), sized_lists(ops, 6, 40), sized_lists(ops, 6, 40)),
     })
